@@ -11,8 +11,10 @@ R-C07.2  `_update_inout_ports`, interpreted on all argument lists up to length 3
          updated element, and no port is left over.
 R-C07.3  the HUGR signature returns exactly the borrowed inputs after the regular outputs
          (and omits comptime inputs), on all small input lists.
-R-C07.4  the index of a subscripted place is compiled once and reused for the write-back
-         (`visit_PlaceNode` / `_assign_place` guard on `subscript.item not in self.dfg`).
+R-C07.4  the index of a subscripted place is compiled once and reused for the write-back: `ExprCompiler.visit_PlaceNode` and
+         `StmtCompiler._assign_place` interpreted with a model data-flow container (index temporary bound or not, place = the
+         subscript or a field below it): the index expression is compiled iff the temporary is unbound, a bound temporary
+         keeps its wire, getitem / store / setitem happen in order (c07_subscript.py; the guarded-store shape as fallback).
 R-C07.5  comptime tracing writes borrowed values back: `trace_call` interpreted on argument lists of length <= 3 over
          {owned, borrowed} with recorder tokens: update_packed_value once per borrowed argument, in order, with the post-call
          wire and the variable's type; a failed update raises GuppyComptimeError (c07_trace.py).
@@ -209,16 +211,19 @@ def run(ctx: Ctx) -> None:
                   "the HUGR signature of a function does not hand its borrowed inputs back (in order, after the regular outputs)")
 
     # ------------------------------------------------------------ R-C07.4 subscript index compiled once
-    for cls_name, meth, hint in (("ExprCompiler", "visit_PlaceNode", EC), ("StmtCompiler", "_assign_place", "guppylang_internals.compiler.stmt_compiler")):
-        f = idx.method(cls_name, meth, hint)
-        stores = [n for n in walk_no_nested(f.node) if isinstance(n, ast.Assign) and any(isinstance(t, ast.Subscript) and ast.unparse(t.slice) == "subscript.item" for t in n.targets)]
-        ok = bool(stores)
-        for s in stores:
-            gs = lexical_guards(f.node, s) or []
-            ok = ok and any(ast.unparse(e).replace(" ", "") == "subscript.itemnotinself.dfg" and pol for e, pol in gs)
-        ctx.check(ok, "R-C07.4", f"{f.qualname}#index-compiled-once", f.where, {"stores": [ast.unparse(s)[:70] for s in stores]},
-                  "the index expression of `a[i]` is compiled again for the write-back: with a side-effecting or changing index the element is "
-                  "put back into a different slot than it was taken from")
+    from . import c07_subscript
+    if not c07_subscript.run(ctx):
+        # fallback: the guarded-store shape (`if subscript.item not in self.dfg: self.dfg[subscript.item] = ...`)
+        for cls_name, meth, hint in (("ExprCompiler", "visit_PlaceNode", EC), ("StmtCompiler", "_assign_place", "guppylang_internals.compiler.stmt_compiler")):
+            f = idx.method(cls_name, meth, hint)
+            stores = [n for n in walk_no_nested(f.node) if isinstance(n, ast.Assign) and any(isinstance(t, ast.Subscript) and ast.unparse(t.slice) == "subscript.item" for t in n.targets)]
+            ok = bool(stores)
+            for s in stores:
+                gs = lexical_guards(f.node, s) or []
+                ok = ok and any(ast.unparse(e).replace(" ", "") == "subscript.itemnotinself.dfg" and pol for e, pol in gs)
+            ctx.check(ok, "R-C07.4", f"{f.qualname}#index-compiled-once", f.where, {"stores": [ast.unparse(s)[:70] for s in stores]},
+                      "the index expression of `a[i]` is compiled again for the write-back: with a side-effecting or changing index the element is "
+                      "put back into a different slot than it was taken from")
 
     # ------------------------------------------------------------ R-C07.6 a borrowed parameter cannot be rebound
     va = idx.method("BBLinearityChecker", "visit_Assign", "guppylang_internals.checker.linearity_checker")
